@@ -3,6 +3,9 @@
 package collector
 
 import (
+	"sync/atomic"
+	"sync"
+	"io"
 	"encoding/hex"
 	"fmt"
 	"net"
@@ -192,6 +195,69 @@ func vRedactOp(t []string) string {
 			}
 		}
 		return fmt.Sprintf("obf=%s leak=%d", vHexC([]byte(vObf(key))), leak)
+	case "storm":
+		// redact storm conc=<k> n=<m> seed=<s>: k sender goroutines share one real client (as the worker's harvest goroutines do)
+		// against a server that often answers before it has read the request body (503 / 413 at once) - run under the race
+		// detector (C17): whatever a request hands to the transport must not be touched again while the transport may still read it
+		var conc, n, seed int
+		fmt.Sscanf(vKVc(t, "conc", "4"), "%d", &conc)
+		fmt.Sscanf(vKVc(t, "n", "20"), "%d", &n)
+		fmt.Sscanf(vKVc(t, "seed", "1"), "%d", &seed)
+		var hits int64
+		release := make(chan struct{})
+		srv := httptest.NewUnstartedServer(http.HandlerFunc(func(w http.ResponseWriter, r *http.Request) {
+			k := atomic.AddInt64(&hits, 1)
+			if (int(k)+seed)%3 == 2 {
+				io.Copy(io.Discard, r.Body)
+				w.Write([]byte(`{"return_value":null}`))
+				return
+			}
+			// an overloaded collector / proxy: the status goes out as soon as the headers are in, the body is not read
+			w.Header().Set("Content-Length", "0")
+			w.WriteHeader([]int{503, 413}[int(k)%2])
+			if f, ok := w.(http.Flusher); ok {
+				f.Flush()
+			}
+			select {
+			case <-release:
+			case <-time.After(60 * time.Millisecond):
+			}
+		}))
+		// small socket buffers on both sides: a body of moderate size cannot disappear into them, the transport's write
+		// goroutine stays busy with it as it does with a full-size harvest on a real network
+		srv.Listener = vSmallBufListener{srv.Listener}
+		srv.Start()
+		defer srv.Close()
+		defer close(release)
+		dialer := &net.Dialer{Timeout: 5 * time.Second}
+		c := &clientImpl{httpClient: &http.Client{Timeout: 5 * time.Second, Transport: &http.Transport{
+			Dial: func(network, addr string) (net.Conn, error) {
+				cn, err := dialer.Dial(network, addr)
+				if tc, ok := cn.(*net.TCPConn); ok {
+					tc.SetWriteBuffer(4096)
+				}
+				return cn, err
+			}}}}
+		// a payload that does not shrink when it is deflated
+		body := make([]byte, 1<<20)
+		x := uint32(seed*2654435761 + 1)
+		for i := range body {
+			x = x*1664525 + 1013904223
+			body[i] = byte(x >> 24)
+		}
+		var wg sync.WaitGroup
+		for g := 0; g < conc; g++ {
+			wg.Add(1)
+			go func() {
+				defer wg.Done()
+				for i := 0; i < n; i++ {
+					cmd := RpmCmd{Name: CommandTxnEvents, Data: body, MaxPayloadSize: 8 << 20}
+					c.perform(srv.URL, cmd, RpmControls{AgentLanguage: "php"})
+				}
+			}()
+		}
+		wg.Wait()
+		return "ok"
 	case "proxyerr":
 		pb, _ := hex.DecodeString(vKVc(t, "proxy", ""))
 		sb, _ := hex.DecodeString(vKVc(t, "secret", ""))
@@ -221,4 +287,14 @@ func vHexC(b []byte) string {
 func vObf(key string) string {
 	lk := LicenseKey(key)
 	return lk.String()
+}
+
+type vSmallBufListener struct{ net.Listener }
+
+func (l vSmallBufListener) Accept() (net.Conn, error) {
+	c, err := l.Listener.Accept()
+	if tc, ok := c.(*net.TCPConn); ok {
+		tc.SetReadBuffer(4096)
+	}
+	return c, err
 }
